@@ -59,6 +59,8 @@ type c14Input struct {
 	PanicAt [][]int `json:"panicAt"`         // per caller: indices of the jobs whose job function panics
 	Stagger []int   `json:"stagger"`         // yields of caller i before it calls RunJobs
 	Salt    uint64  `json:"salt"`            // per-job choices for mixed/yield kinds
+	Via     string  `json:"via,omitempty"`   // "" = util.NewWorkerGroup directly | runner-v3 | runner-v2: the group as the runner's constructor builds it (Jobs = batches per CheckUpkeeps caller)
+	Queue   int     `json:"queue,omitempty"` // runner: WorkerQueueLength (!= Workers)
 	Trace   bool    `json:"trace,omitempty"` // record the verif hook events of the run (needs the hooks in /repo: c14_trace_test.go)
 }
 
@@ -215,6 +217,9 @@ func c14BubbleGoroutines() int {
 // c14Run executes one case on the real worker group.  `verdict` is called with the
 // observations as soon as the deadlock verdict is known and before anything is released.
 func c14Run(t *testing.T, in c14Input, verdict func(c14Impl)) (impl c14Impl) {
+	if in.Via != "" {
+		return c14RunRunner(t, in, verdict)
+	}
 	n := len(in.Jobs)
 	type callerState struct {
 		mu        sync.Mutex
@@ -465,6 +470,12 @@ func c14Edge() []c14Input {
 		{Workers: 3, Jobs: []int{10, 10}, K: 30, Mode: "stop", JobKind: "hold", PanicAt: [][]int{{1}, {1, 2}}},
 		{Workers: 5, Jobs: []int{20}, K: 15, Mode: "cancel", JobKind: "mixed", PanicAt: [][]int{{0, 6}}, Salt: 11},
 		{Workers: 2, Jobs: []int{5}, Mode: "stop-after", JobKind: "yield", PanicAt: [][]int{{4}}, Salt: 2},
+		// through the runners' constructors: Workers != WorkerQueueLength, more batches than workers
+		{Via: "runner-v3", Workers: 3, Queue: 1000, Jobs: []int{36}, Mode: "none", JobKind: "hold"},
+		{Via: "runner-v3", Workers: 2, Queue: 100, Jobs: []int{5, 5, 5}, Mode: "none", JobKind: "hold", Salt: 4},
+		{Via: "runner-v3", Workers: 8, Queue: 3, Jobs: []int{20}, Mode: "stop-after", JobKind: "hold"},
+		{Via: "runner-v2", Workers: 3, Queue: 1000, Jobs: []int{12}, Mode: "none", JobKind: "hold"},
+		{Via: "runner-v2", Workers: 1, Queue: 7, Jobs: []int{4, 0, 3}, Mode: "cancel-after", JobKind: "yield", Salt: 9},
 	}
 }
 
@@ -578,6 +589,57 @@ func c14Gen(r *Rng, i int) c14Input {
 	return in
 }
 
+// c14GenRunner: Workers != WorkerQueueLength, more batches in flight than workers, a check pipeline
+// that mostly holds (released wave by wave), several concurrent CheckUpkeeps callers
+func c14GenRunner(r *Rng) c14Input {
+	var in c14Input
+	in.Via = "runner-v3"
+	if r.Chance(35) {
+		in.Via = "runner-v2"
+	}
+	in.Workers = []int{1, 2, 2, 3, 3, 4, 5, 8, 16}[r.Intn(9)]
+	switch r.Intn(5) {
+	case 0:
+		in.Queue = 1000 // production default (ServiceQueueLength)
+	case 1:
+		in.Queue = 100
+	case 2:
+		in.Queue = in.Workers + r.Range(1, 3)
+	case 3:
+		in.Queue = in.Workers * r.Range(2, 10)
+	default:
+		in.Queue = r.Range(0, in.Workers-1) // smaller than the number of workers
+	}
+	callers := []int{1, 1, 2, 3, 4}[r.Intn(5)]
+	for c := 0; c < callers; c++ {
+		var b int
+		switch r.Intn(6) {
+		case 0:
+			b = r.Range(0, 1)
+		case 1:
+			b = in.Workers + r.Range(-1, 2)
+		default:
+			b = r.Range(in.Workers+1, 3*in.Workers+6) // more batches than workers
+		}
+		if b < 0 {
+			b = 0
+		}
+		in.Jobs = append(in.Jobs, b)
+		in.Stagger = append(in.Stagger, r.Intn(3)*r.Intn(8))
+	}
+	in.Mode = []string{"none", "none", "none", "stop-after", "cancel-after"}[r.Intn(5)]
+	switch k := r.Intn(100); {
+	case k < 65:
+		in.JobKind = "hold"
+	case k < 85:
+		in.JobKind = "yield"
+	default:
+		in.JobKind = "plain"
+	}
+	in.Salt = r.U64() % 1_000_000
+	return in
+}
+
 // c14GenTrace: a case for trace validation: the same generator, sizes cut down
 func c14GenTrace(r *Rng, i int) c14Input {
 	in := c14Gen(r, i)
@@ -636,6 +698,11 @@ func c14Cases(t *testing.T) (cases []c14Case, dist map[string]int) {
 		in := c14Gen(r, i)
 		cases = append(cases, c14Case{"gen", in})
 	}
+	// the worker group as the runners' public constructors build it (own random stream)
+	r3 := NewRng(seed() + 0x4a11)
+	for i, nr := 0, tierN(200, 3000); i < nr; i++ {
+		cases = append(cases, c14Case{"gen-runner", c14GenRunner(r3)})
+	}
 	if c14TraceBegin != nil {
 		// trace validation subset: smaller runs (a trace has ~30 events per job), own random stream so
 		// that the cases above are the same with and without the hooks
@@ -653,6 +720,14 @@ func c14Cases(t *testing.T) (cases []c14Case, dist map[string]int) {
 		}
 		if in.Trace {
 			dist["trace=yes"]++
+		}
+		if in.Via != "" {
+			dist["via="+in.Via]++
+			if in.Queue > in.Workers {
+				dist["runner:queue>workers"]++
+			} else {
+				dist["runner:queue<workers"]++
+			}
 		}
 		dist["mode="+in.Mode]++
 		dist["kind="+in.JobKind]++
